@@ -138,9 +138,27 @@ Proof.
     rewrite Hl. reflexivity.
 Qed.
 
-(** ** keys as text *)
-Lemma unescape_all_escape : forall texts, unescape_all (map escape texts) = Some texts.
-Proof. induction texts as [|t ts IH]; simpl; [reflexivity|]. rewrite pct_roundtrip, IH. reflexivity. Qed.
+(** ** keys as text.
+    Everything from here to [find_render_from] holds for ANY way [esc] of writing a key's text
+    that url.QueryUnescape decodes back and that leaves no raw '/', ',' or '?' ([valid_enc]):
+    the reference encoder, lower-case hex, over-encoding, '+' for a space, ... *)
+Definition valid_enc (esc : list byte -> list byte) : Prop :=
+  (forall t, unescape (esc t) = Some t) /\ (forall t c, In c [slash; comma; qmark] -> free c (esc t)).
+
+Lemma escape_valid : valid_enc escape.
+Proof. split; [exact pct_roundtrip|]. intros t c Hin. apply escape_free. simpl in *. tauto. Qed.
+
+Lemma escape_all_valid : valid_enc escape_all.
+Proof. split; [exact escape_all_roundtrip|]. intros t c Hin. apply escape_all_free. simpl in *. tauto. Qed.
+
+Section Enc.
+Variable esc : list byte -> list byte.
+Hypothesis esc_valid : valid_enc esc.
+Let esc_dec := proj1 esc_valid.
+Let esc_free := proj2 esc_valid.
+
+Lemma unescape_all_escape : forall texts, unescape_all (map esc texts) = Some texts.
+Proof. induction texts as [|t ts IH]; simpl; [reflexivity|]. rewrite esc_dec, IH. reflexivity. Qed.
 
 Lemma conv_keys_text : forall tys key,
   Forall2 key_val_ok tys key -> conv_keys tys (map key_text key) = Some (map Some key).
@@ -149,26 +167,26 @@ Proof.
   rewrite (conv_key_text ty v Hv), IH. reflexivity.
 Qed.
 
-Definition key_seg (key : list lval) : list byte := join comma (map (fun v => escape (key_text v)) key).
+Definition key_seg (key : list lval) : list byte := join comma (map (fun v => esc (key_text v)) key).
 
 Lemma key_seg_split key : key <> [] ->
   unescape_all (split_on comma (key_seg key)) = Some (map key_text key).
 Proof.
-  intros Hne. unfold key_seg. rewrite <- (map_map key_text escape).
+  intros Hne. unfold key_seg. rewrite <- (map_map key_text esc).
   rewrite split_join_plain.
   - apply unescape_all_escape.
   - destruct key; simpl; congruence.
   - apply Forall_forall. intros x Hx. apply in_map_iff in Hx. destruct Hx as [t [<- _]].
-    apply escape_free. simpl. tauto.
+    apply esc_free. simpl. tauto.
 Qed.
 
-Lemma key_seg_free key c : In c [slash; equals; qmark] -> free c (key_seg key).
+Lemma key_seg_free key c : In c [slash; qmark] -> free c (key_seg key).
 Proof.
   intros Hin. unfold key_seg. induction key as [|v key IH]; [reflexivity|].
-  assert (Hv : free c (escape (key_text v))) by (apply escape_free; simpl in *; tauto).
+  assert (Hv : free c (esc (key_text v))) by (apply esc_free; simpl in *; tauto).
   destruct key as [|w key]; [exact Hv|].
-  change (join comma (map (fun v => escape (key_text v)) (v :: w :: key)))
-    with (escape (key_text v) ++ comma :: join comma (map (fun v => escape (key_text v)) (w :: key))).
+  change (join comma (map (fun v => esc (key_text v)) (v :: w :: key)))
+    with (esc (key_text v) ++ comma :: join comma (map (fun v => esc (key_text v)) (w :: key))).
   apply free_app. split; [exact Hv|]. apply free_cons. split; [|exact IH].
   simpl in Hin. repeat (destruct Hin as [<-|Hin]; [reflexivity|]). contradiction.
 Qed.
@@ -211,7 +229,7 @@ Proof. intros [->|[r ->]]; reflexivity. Qed.
 
 Lemma parse_render pfx : forall l kids quals is_mod rest,
   loc_ok kids l -> rest = [] \/ (exists r, rest = [] :: r) ->
-  parse_segs is_mod pfx (Some kids) (render_segs escape quals kids l ++ rest) = POk (segs_of kids l).
+  parse_segs is_mod pfx (Some kids) (render_segs esc quals kids l ++ rest) = POk (segs_of kids l).
 Proof.
   induction l as [|st tl IH]; intros kids quals is_mod rest Hok Hrest.
   - simpl. apply parse_segs_end, Hrest.
@@ -230,7 +248,7 @@ Proof.
       destruct (Hr) as [_ [Hn Hm]].
       destruct (step_name_facts q (SList m keys row) Hn Hm) as [[c [r [E _]]] _].
       rewrite <- app_comm_cons.
-      change (join comma (map (fun v => escape (key_text v)) key)) with (key_seg key).
+      change (join comma (map (fun v => esc (key_text v)) key)) with (key_seg key).
       rewrite E. rewrite <- app_comm_cons. rewrite parse_segs_cons. rewrite app_comm_cons. rewrite <- E.
       rewrite (parse_one_key _ _ _ i m keys row q key _ Hr Hne Hkeys). cbv beta.
       simpl scope_of_node; cbv iota beta. rewrite IH by assumption. reflexivity.
@@ -296,8 +314,8 @@ Qed.
 
 Lemma render_segs_props : forall l kids quals,
   loc_ok kids l ->
-  Forall (fun s => free slash s /\ free qmark s) (render_segs escape quals kids l)
-  /\ (l <> [] -> exists c r tl, render_segs escape quals kids l = (c :: r) :: tl /\ Byte.eqb c dot = false).
+  Forall (fun s => free slash s /\ free qmark s) (render_segs esc quals kids l)
+  /\ (l <> [] -> exists c r tl, render_segs esc quals kids l = (c :: r) :: tl /\ Byte.eqb c dot = false).
 Proof.
   induction l as [|st tl IH]; intros kids quals Hok.
   - split; [constructor|congruence].
@@ -313,7 +331,7 @@ Proof.
         -- subst tl. constructor.
       * intros _. rewrite E. eexists _, _, _. split; [reflexivity|exact Hd].
     + destruct k as [m ty il d|m kids'|m keys row]; try contradiction. destruct Hk as [Hne [Hkeys Htl]].
-      change (join comma (map (fun v => escape (key_text v)) key)) with (key_seg key).
+      change (join comma (map (fun v => esc (key_text v)) key)) with (key_seg key).
       split.
       * constructor.
         -- split; apply free_app; (split; [assumption|]); apply free_cons; (split; [reflexivity|]);
@@ -337,29 +355,29 @@ Qed.
 Theorem find_render_from : forall pfx kids data base ext bk bd l quals trailing,
   resolve (AtCont kids data) base = Some (AtCont bk bd) ->
   loc_ok bk l ->
-  find pfx kids data (base ++ ext) (ups (chain_len (rev ext)) ++ render quals trailing bk l) =
+  find pfx kids data (base ++ ext) (ups (chain_len (rev ext)) ++ render_with esc quals trailing bk l) =
   FOk (match resolve (AtCont bk bd) l with Some _ => Some (base ++ l) | None => None end).
 Proof.
   intros pfx kids data base ext bk bd l quals trailing Hbase Hok.
   destruct (render_segs_props l bk quals Hok) as [Hfree Hfirst].
-  assert (Hsl : Forall (free slash) (render_segs escape quals bk l)).
+  assert (Hsl : Forall (free slash) (render_segs esc quals bk l)).
   { eapply Forall_impl; [|exact Hfree]. intros s [H _]. exact H. }
-  assert (Hqm : Forall (free qmark) (render_segs escape quals bk l)).
+  assert (Hqm : Forall (free qmark) (render_segs esc quals bk l)).
   { eapply Forall_impl; [|exact Hfree]. intros s [_ H]. exact H. }
-  assert (Hnodot : nodot (render quals trailing bk l)).
-  { unfold render. destruct l as [|st tl].
+  assert (Hnodot : nodot (render_with esc quals trailing bk l)).
+  { unfold render_with. destruct l as [|st tl].
     - simpl. destruct trailing; simpl; [reflexivity|exact I].
     - destruct (Hfirst ltac:(congruence)) as [c [r [tl' [E Hd]]]]. rewrite E.
       destruct tl'; simpl; exact Hd. }
-  assert (Hnoq : free qmark (render quals trailing bk l)).
-  { unfold render. apply free_app. split; [apply join_free; [reflexivity|exact Hqm]|].
+  assert (Hnoq : free qmark (render_with esc quals trailing bk l)).
+  { unfold render_with. apply free_app. split; [apply join_free; [reflexivity|exact Hqm]|].
     destruct trailing; reflexivity. }
   unfold find. rewrite rev_app_distr. rewrite strip_up_ups by exact Hnodot. rewrite rev_involutive.
   unfold find_from. rewrite cut_at_free by exact Hnoq. simpl fst. rewrite Hbase.
   simpl scope_of.
   assert (Hsplit : exists rest, (rest = [] \/ exists r, rest = [] :: r) /\
-             split_on slash (render quals trailing bk l) = render_segs escape quals bk l ++ rest).
-  { unfold render. destruct (render_segs escape quals bk l) as [|s0 ss] eqn:E.
+             split_on slash (render_with esc quals trailing bk l) = render_segs esc quals bk l ++ rest).
+  { unfold render_with. destruct (render_segs esc quals bk l) as [|s0 ss] eqn:E.
     - simpl. destruct trailing; simpl.
       + exists [[]; []]. split; [right; eexists; reflexivity|reflexivity].
       + exists [[]]. split; [right; eexists; reflexivity|reflexivity].
@@ -371,3 +389,5 @@ Proof.
   rewrite (walk_resolve l bk bd Hok).
   destruct (resolve (AtCont bk bd) l); reflexivity.
 Qed.
+
+End Enc.
